@@ -25,3 +25,82 @@ package admin
 //@   ensures {C06,C08} rollback-is-logged-as-rollback-of-index: txnCreates > old(txnCreates) ==> txnCreates == old(txnCreates) + 1 && lastCreatedTxnRollbackIndex == req.Index && lastCreatedTxnSync
 //@   ensures {C06} rollback-request-writes-nothing-else: cfgValueWrites == old(cfgValueWrites) && cfgStatusWrites == old(cfgStatusWrites) && proposalCreates == old(proposalCreates) && deviceSetCalls == old(deviceSetCalls)
 //@   loop 1 invariant txnCreates == old(txnCreates) + 1 && lastCreatedTxnRollbackIndex == req.Index && lastCreatedTxnSync && cfgValueWrites == old(cfgValueWrites) && cfgStatusWrites == old(cfgStatusWrites) && proposalCreates == old(proposalCreates) && deviceSetCalls == old(deviceSetCalls)
+
+// No-panic sweep (C12) of the remaining admin handlers. adminWF: the server as NewService wires it.
+//@ spec adminWF(s Server) bool = s.transactionsStore != nil && s.configurationsStore != nil && s.pluginRegistry != nil
+//@ func (Server).GetTransaction(s, ctx, req) (resp, err)
+//@   props C12
+//@   safe
+//@   requires adminWF(s) && req != nil && ctx != nil
+//@ func (Server).ListTransactions(s, req, stream) (err)
+//@   props C12
+//@   safe
+//@   requires adminWF(s) && req != nil && stream != nil
+//@ func (Server).WatchTransactions(s, req, stream) (err)
+//@   props C12
+//@   safe
+//@   requires adminWF(s) && req != nil && stream != nil
+//@ func (Server).streamTransactions(s, server, ch) (err)
+//@   props C12
+//@   safe
+//@   requires server != nil
+//@   modifies nothing
+//@   ensures errWF(err)
+//@ func (Server).GetConfiguration(s, ctx, req) (resp, err)
+//@   props C12
+//@   safe
+//@   requires adminWF(s) && req != nil && ctx != nil
+//@ func (Server).ListConfigurations(s, req, stream) (err)
+//@   props C12
+//@   safe
+//@   requires adminWF(s) && req != nil && stream != nil
+//@ func (Server).WatchConfigurations(s, req, stream) (err)
+//@   props C12
+//@   safe
+//@   requires adminWF(s) && req != nil && stream != nil
+//@ func (Server).streamConfigurations(s, server, ch) (err)
+//@   props C12
+//@   safe
+//@   requires server != nil
+//@   modifies nothing
+//@   ensures errWF(err)
+//@ func (Server).ListRegisteredModels(s, r, stream) (err)
+//@   props C12
+//@   safe
+//@   requires adminWF(s) && r != nil && stream != nil
+
+//@ import gnmi "github.com/openconfig/gnmi/proto/gnmi"
+//@ import adminapi "github.com/onosproject/onos-api/go/onos/config/admin"
+// a change context as the gogo decoder delivers it: repeated message fields hold no nil element, a set
+// oneof carries a non-nil wrapper
+//@ spec wireValidLSQ(req *adminapi.LeafSelectionQueryRequest) bool = req != nil ==> (req.ChangeContext != nil ==> (forall u in req.ChangeContext.Update :: u != nil && wireValidTV(u.Val)) && (forall u in req.ChangeContext.Replace :: u != nil && wireValidTV(u.Val)) && (forall p in req.ChangeContext.Delete :: p != nil))
+//@ spec tvMapWF(m configapi.TypedValueMap) bool = m != nil && (forall k string :: (k in m) ==> m[k] != nil)
+//@ spec pvMapWF(m map[string]*configapi.PathValue) bool = forall k string :: (k in m) ==> m[k] != nil
+//@ func (Server).LeafSelectionQuery(s, ctx, req) (resp, err)
+//@   props C12
+//@   safe
+//@   requires adminWF(s) && ctx != nil && wireValidLSQ(req)
+// loops 1-3: the change context's updates, replaces and deletes; 4: typed values to change values; 5: deleted
+// paths marked in the configuration read from the store; 6: change values merged into it; 7: flattening
+//@   loop 1 invariant tvMapWF(updates) && config != nil && pvMapWF(config.Values)
+//@   loop 2 invariant tvMapWF(updates) && config != nil && pvMapWF(config.Values)
+//@   loop 3 invariant tvMapWF(updates) && config != nil && pvMapWF(config.Values)
+//@   loop 4 invariant tvMapWF(updates) && config != nil && pvMapWF(config.Values) && newChanges != nil && pvMapWF(newChanges)
+//@   loop 5 invariant {C12} merged-into-an-allocated-map: config != nil && config.Values != nil
+//@   loop 5 invariant config != nil && pvMapWF(config.Values) && newChanges != nil && pvMapWF(newChanges)
+//@   loop 6 invariant config != nil && config.Values != nil && pvMapWF(config.Values) && newChanges != nil && pvMapWF(newChanges)
+//@   loop 7 invariant config != nil
+//@ func (*Server).doUpdateOrReplace(s, ctx, prefix, u, plugin, updates) (err)
+//@   props C12
+//@   safe
+//@   requires s != nil && ctx != nil && u != nil && wireValidTV(u.Val) && plugin != nil && tvMapWF(updates)
+//@   ensures tvMapWF(updates)
+//@   loop 1 invariant tvMapWF(updates)
+//@   modifies mapOf(updates), checkFailures, getPathValuesCalls, lastGetPathValuesPrefix, lastFindExact, lastFindKey
+//@   ensures errWF(err)
+//@ func (*Server).doDelete(s, prefix, gnmiPath, plugin) (deletes, err)
+//@   props C12
+//@   safe
+//@   requires s != nil && plugin != nil
+//@   modifies checkFailures, lastFindExact, lastFindKey
+//@   ensures errWF(err)
